@@ -1,0 +1,224 @@
+//! Script drivers for crate-private components reachable from the crate root.
+
+use crate::{
+    LocationAndType, MVMemory, MemoryEntry, MemoryValue, ReadVersion, TxVersion,
+    account::FinalizedAccount,
+    beneficiary::Beneficiary,
+    delegated_safety::{ReserveJournalExt, ReservePlanner},
+    incarnation_db::IncarnationDb,
+};
+use revm::{Database, DatabaseRef};
+use revm_context::{Journal, TxEnv, journaled_state::JournalCheckpoint};
+use revm_primitives::{Address, B256, U256};
+use revm_state::{Account, AccountInfo, Bytecode, EvmState};
+use std::sync::Arc;
+
+// ------------------------------------------------------------------------------------------------
+// Finalized journal-account classification
+// ------------------------------------------------------------------------------------------------
+
+/// 0 = Unchanged, 1 = Deleted, 2 = Created, 3 = Updated.
+pub fn classify_account(account: &Account) -> u8 {
+    match FinalizedAccount::from(account) {
+        FinalizedAccount::Unchanged => 0,
+        FinalizedAccount::Deleted => 1,
+        FinalizedAccount::Created(_) => 2,
+        FinalizedAccount::Updated(_) => 3,
+    }
+}
+
+// ------------------------------------------------------------------------------------------------
+// Reserve planner and journal scan
+// ------------------------------------------------------------------------------------------------
+
+pub struct PlannerDriver(ReservePlanner);
+
+impl PlannerDriver {
+    pub fn new(txs: Arc<Vec<TxEnv>>) -> Self {
+        Self(ReservePlanner::new(txs))
+    }
+    pub fn required_after(&self, txid: usize, address: Address) -> U256 {
+        self.0.required_after(txid, address)
+    }
+}
+
+/// `(address, balance_before, final_balance)` for every delegated debit candidate, sorted.
+pub fn delegated_debits<DB: Database>(
+    journal: &Journal<DB>,
+    checkpoint: JournalCheckpoint,
+    tx: &TxEnv,
+) -> Vec<(Address, U256, U256)> {
+    let mut debits: Vec<_> = journal
+        .delegated_debits_since(checkpoint, tx)
+        .into_iter()
+        .map(|debit| (debit.address, debit.balance_before, debit.final_balance))
+        .collect();
+    debits.sort();
+    debits
+}
+
+// ------------------------------------------------------------------------------------------------
+// Multi-version memory and the incarnation database
+// ------------------------------------------------------------------------------------------------
+
+/// A physical location: kind 0 Basic, 1 Storage, 2 StorageReset, 3 Code.
+#[derive(Clone, Debug, PartialEq, Eq, PartialOrd, Ord)]
+pub struct Loc {
+    pub kind: u8,
+    pub address: Address,
+    pub slot: U256,
+}
+
+impl Loc {
+    fn to_internal(&self) -> LocationAndType {
+        match self.kind {
+            0 => LocationAndType::Basic(self.address),
+            1 => LocationAndType::Storage(self.address, self.slot),
+            2 => LocationAndType::StorageReset(self.address),
+            _ => LocationAndType::Code(self.address),
+        }
+    }
+    fn from_internal(location: &LocationAndType) -> Self {
+        match location {
+            LocationAndType::Basic(a) => Self { kind: 0, address: *a, slot: U256::ZERO },
+            LocationAndType::Storage(a, s) => Self { kind: 1, address: *a, slot: *s },
+            LocationAndType::StorageReset(a) => Self { kind: 2, address: *a, slot: U256::ZERO },
+            LocationAndType::Code(a) => Self { kind: 3, address: *a, slot: U256::ZERO },
+        }
+    }
+}
+
+/// A scripted value for [`MvDriver::publish`].
+#[derive(Clone, Debug)]
+pub enum Val {
+    Basic(Option<AccountInfo>),
+    Code(Bytecode),
+    Storage(U256),
+    Reset,
+}
+
+/// A recorded read version.
+#[derive(Clone, Debug, PartialEq, Eq, PartialOrd, Ord)]
+pub enum Version {
+    Storage,
+    Mv(usize, usize),
+    Beneficiary(Vec<(usize, usize)>),
+}
+
+#[derive(Default)]
+pub struct MvDriver(MVMemory);
+
+impl MvDriver {
+    pub fn publish(&self, loc: &Loc, txid: usize, incarnation: usize, value: Val, estimate: bool) {
+        let data = match value {
+            Val::Basic(info) => MemoryValue::Basic(info),
+            Val::Code(code) => MemoryValue::Code(code),
+            Val::Storage(value) => MemoryValue::Storage(value),
+            Val::Reset => MemoryValue::StorageReset,
+        };
+        self.0
+            .entry(loc.to_internal())
+            .or_default()
+            .insert(txid, MemoryEntry::new(incarnation, data, estimate));
+    }
+
+    /// All entries as `(location, txid, incarnation, estimate, value-description)`, sorted.
+    pub fn dump(&self) -> Vec<(Loc, usize, usize, bool, String)> {
+        let mut out = Vec::new();
+        for item in self.0.iter() {
+            for (txid, entry) in item.value() {
+                let value = match &entry.data {
+                    MemoryValue::Basic(None) => "basic:none".to_owned(),
+                    MemoryValue::Basic(Some(info)) => format!(
+                        "basic:{}:{}:{}",
+                        info.balance, info.nonce, info.code_hash
+                    ),
+                    MemoryValue::Code(code) => format!("code:{}", code.hash_slow()),
+                    MemoryValue::Storage(value) => format!("storage:{value}"),
+                    MemoryValue::StorageReset => "reset".to_owned(),
+                };
+                out.push((
+                    Loc::from_internal(item.key()),
+                    *txid,
+                    entry.incarnation,
+                    entry.estimate,
+                    value,
+                ));
+            }
+        }
+        out.sort();
+        out
+    }
+}
+
+/// Accesses collected for one incarnation.
+#[derive(Debug)]
+pub struct Accesses {
+    pub read_set: Vec<(Loc, Version)>,
+    pub write_set: Vec<Loc>,
+    pub blocking: Vec<usize>,
+    pub blocked_by_beneficiary: bool,
+}
+
+pub struct BeneficiaryDriver(Beneficiary);
+
+impl BeneficiaryDriver {
+    pub fn new(address: Address, anchor: Option<AccountInfo>, block_size: usize) -> Self {
+        Self(Beneficiary::new(address, anchor, block_size))
+    }
+    pub fn record_estimate(&self, txid: usize, incarnation: usize) -> bool {
+        self.0.record_estimate(&TxVersion::new(txid, incarnation))
+    }
+}
+
+pub struct IncarnationDriver<'a, DB: DatabaseRef>(IncarnationDb<'a, DB>);
+
+impl<'a, DB: DatabaseRef> IncarnationDriver<'a, DB> {
+    pub fn new(backing: &'a DB, mv: &'a MvDriver, beneficiary: &'a BeneficiaryDriver) -> Self {
+        Self(IncarnationDb::new(backing, &mv.0, &beneficiary.0))
+    }
+    pub fn begin(&mut self, txid: usize, incarnation: usize) {
+        self.0.begin_incarnation(TxVersion::new(txid, incarnation));
+    }
+    pub fn basic(&mut self, address: Address) -> Result<Option<AccountInfo>, DB::Error> {
+        self.0.basic(address)
+    }
+    pub fn storage(&mut self, address: Address, index: U256) -> Result<U256, DB::Error> {
+        self.0.storage(address, index)
+    }
+    pub fn code_by_hash(&mut self, hash: B256) -> Result<Bytecode, DB::Error> {
+        self.0.code_by_hash(hash)
+    }
+    pub fn finish(&mut self, changes: &EvmState) -> Accesses {
+        convert(self.0.finish_incarnation(changes))
+    }
+    pub fn discard(&mut self) -> Accesses {
+        convert(self.0.discard_incarnation())
+    }
+}
+
+fn convert(accesses: crate::incarnation_db::IncarnationAccesses) -> Accesses {
+    let mut read_set: Vec<_> = accesses
+        .read_set
+        .iter()
+        .map(|(location, version)| {
+            let version = match version {
+                ReadVersion::Storage => Version::Storage,
+                ReadVersion::MvMemory(v) => Version::Mv(v.txid, v.incarnation),
+                ReadVersion::Beneficiary(v) => Version::Beneficiary(v.verif_origins()),
+            };
+            (Loc::from_internal(location), version)
+        })
+        .collect();
+    read_set.sort();
+    let mut write_set: Vec<_> = accesses.write_set.iter().map(Loc::from_internal).collect();
+    write_set.sort();
+    let mut blocking: Vec<_> = accesses.blocking_txs.iter().copied().collect();
+    blocking.sort_unstable();
+    Accesses {
+        read_set,
+        write_set,
+        blocking,
+        blocked_by_beneficiary: accesses.blocked_by_beneficiary,
+    }
+}
